@@ -108,6 +108,10 @@ func (e *Engine) callFunction(st *State, fn *ssa.Function, args []Value, bind []
 		panic(unsupported("call of external function without specification: " + name))
 	}
 	if !e.inModule(pkgOf(fn)) {
+		if v, ok := e.pureDependencyCall(st, fn, args); ok {
+			setRes(st, res, v)
+			return []*State{st}
+		}
 		panic(unsupported("call of dependency function without specification: " + name))
 	}
 	if e.cur != nil {
@@ -348,7 +352,7 @@ func (e *Engine) copyOp(st *State, cc *ssa.CallCommon, args []Value, pos token.P
 		d := Select(a, dst.Arr)
 		s := Select(a, src.Arr)
 		j := T("j!q", SInt)
-		st.assume(Forall([]Term{j}, Implies(And(Le(IntLit(0), j), Lt(j, n)),
+		st.assume(ForallPat([]Term{j}, [][]Term{{Select(na, IX(dst.Off, j))}, {Select(s, IX(src.Off, j))}}, Implies(And(Le(IntLit(0), j), Lt(j, n)),
 			Eq(Select(na, IX(dst.Off, j)), Select(s, IX(src.Off, j))))))
 		st.assume(Forall([]Term{j}, Implies(Or(Lt(j, dst.Off), Ge(j, Add(dst.Off, n))),
 			Eq(Select(na, j), Select(d, j)))))
@@ -819,4 +823,66 @@ func (e *Engine) assumeExternPost(st *State, m *types.Func, rv Value) {
 		st.assume(e.evalSpecBool(env, c.Expr))
 		e.trustedUsed["assumed about results of "+m.FullName()+": "+c.Src] = true
 	}
+}
+
+// pureDependencyCall: functions of a few side-effect-free standard packages
+// whose parameters and results are all scalars are modelled as deterministic
+// uninterpreted functions of their arguments.
+var purePkgs = map[string]bool{"math": true, "strconv": true, "strings": true, "unicode": true, "unicode/utf8": true, "math/bits": true, "time": true}
+
+func (e *Engine) pureDependencyCall(st *State, fn *ssa.Function, args []Value) (Value, bool) {
+	p := pkgOf(fn)
+	if p == nil || !purePkgs[p.Path()] {
+		return nil, false
+	}
+	sig := fn.Signature
+	if sig.Results().Len() != 1 {
+		return nil, false
+	}
+	rs, ok := e.scalarSort(sig.Results().At(0).Type())
+	if !ok {
+		return nil, false
+	}
+	if _, isMap := sig.Results().At(0).Type().Underlying().(*types.Map); isMap {
+		return nil, false
+	}
+	var flat []Term
+	var sorts []*Sort
+	for i, a := range args {
+		t, ok := a.(Term)
+		if !ok {
+			return nil, false
+		}
+		var pt types.Type
+		if sig.Recv() != nil {
+			if i == 0 {
+				pt = sig.Recv().Type()
+			} else {
+				pt = sig.Params().At(i - 1).Type()
+			}
+		} else {
+			pt = sig.Params().At(i).Type()
+		}
+		switch pt.Underlying().(type) {
+		case *types.Map, *types.Chan, *types.Pointer:
+			return nil, false
+		}
+		flat = append(flat, t)
+		sorts = append(sorts, t.Sort)
+	}
+	f := e.ctx.Func("dep:"+fn.String(), sorts, rs)
+	var sb strings.Builder
+	if len(flat) == 0 {
+		sb.WriteString(f)
+	} else {
+		sb.WriteString("(" + f)
+		for _, t := range flat {
+			sb.WriteString(" " + t.S)
+		}
+		sb.WriteString(")")
+	}
+	r := T(sb.String(), rs)
+	e.assumeTyped(st, r, sig.Results().At(0).Type())
+	e.trustedUsed["dependency function "+fn.String()+" modelled as a deterministic uninterpreted function of its arguments"] = true
+	return r, true
 }
